@@ -5,6 +5,7 @@ from collections import defaultdict
 from dataclasses import dataclass, field
 from typing import TYPE_CHECKING, Optional
 
+from sqlfluff.core.errors import SQLParseError
 from sqlfluff.core.parser import BaseSegment, SourceFix
 from sqlfluff.core.rules.fix import LintFix
 
@@ -331,11 +332,20 @@ def apply_fixes(
         # Otherwise only validate if there's a match_grammar. Otherwise we may get
         # strange results (for example with the BracketedSegment).
         elif hasattr(new_seg, "match_grammar"):
-            validated = new_seg.validate_segment_with_reparse(
-                dialect,
-                max_parse_depth=max_parse_depth,
-                max_parse_nodes=max_parse_nodes,
-            )
+            try:
+                validated = new_seg.validate_segment_with_reparse(
+                    dialect,
+                    max_parse_depth=max_parse_depth,
+                    max_parse_nodes=max_parse_nodes,
+                )
+            except SQLParseError as err:
+                # The edited segment no longer parses within the configured
+                # limits (depth or node count). That's a failed validation,
+                # not a reason to abort linting.
+                linter_logger.debug(
+                    "Validation Check Fail for %s. %s", new_seg, err.desc()
+                )
+                validated = False
     else:
         validated = not requires_validate
     # Return the new segment and any non-code that needs to bubble up
